@@ -668,6 +668,52 @@ end WrapperProps
     of `delta_empty_imp_equal` holds for the parameters the driver runs with -/
 theorem generated_compares_ignored_leaves : SqlglotModel.Generated.C20.comparesIgnoredLeaves = true := by decide +kernel
 
+/-! ### the parent-link invariant -/
+
+/-- **copy ⇒ empty delta, UNDER the link invariant on both inputs.**  `T` is a structural copy of `S` (same shape and
+    payload, fresh objects — no assumption about `.parent` pointers), and both trees satisfy the C08 link invariant
+    (`LinkInv`: every `.parent` pointer is the structural owner).  Then the delta is empty and the matching is the
+    identity.  The Move test of `_generate_edit_script` compares `.parent` objects, so this assumption is essential:
+    `missing_parent_link_move_witness`. -/
+theorem copy_imp_delta_empty_linked (P : Params) (S T : Tree) (dice : Id → Id → Nat) (φ : Id → Id) (top : Nat)
+    (hc : IsStructCopy S T φ) (hS : LinkInv S) (hT : LinkInv T) (hw : TreeWF S) (hd : DiceOk S T dice top)
+    (hf : P.f ≤ top) (hhi : P.hi.1 ≤ P.hi.2) :
+    (diffTrees P S T dice [] true).edits = [] ∧
+      (∀ p ∈ (diffTrees P S T dice [] true).matching, p.2 = φ p.1) :=
+  let h := equal_imp_delta_empty_partial P S T dice φ top (isCopy_of_struct hc hS hT) hw hd hf hhi
+  ⟨h.1, h.2.1⟩
+
+/-- `SELECT {abc: UInt32}` (ClickHouse query parameter): Select(0) → Placeholder(1) → [Var(2), DataType(3)].
+    `linked = false` is the tree a constructor builds when Placeholder's children are not wired (`parent = None`),
+    `linked = true` the same tree with its links — and what `.copy()` always produces. -/
+def phTree (off : Nat) (linked : Bool) : Tree where
+  root := off
+  size := 5
+  cls := fun i => i - off
+  ty := fun i => i - off
+  parent := fun i =>
+    if i == off + 1 then some off
+    else if (i == off + 2 || i == off + 3) && linked then some (off + 1) else none
+  kids := fun i => if i == off then [off + 1] else if i == off + 1 then [off + 2, off + 3] else []
+  ignored := fun _ => false
+  updatable := fun i => i == off + 3
+  nel := fun i => i - off
+  eqc := fun i => i - off
+  idk := fun _ => 0
+  txt := fun i => i - off
+  lay := fun _ => 0
+
+/-- **without the link invariant a Move appears**: a tree whose Placeholder children have no parent pointer, diffed
+    against its properly linked copy, yields `Move(Var)` and `Move(DataType)` although the two trees are `==`;
+    with the links in place the delta is empty -/
+theorem missing_parent_link_move_witness :
+    (phTree 0 false).linkedB = false ∧ (phTree 10 true).linkedB = true ∧
+    (phTree 0 false).eqc 0 = (phTree 10 true).eqc 10 ∧
+    (diffTrees (witP true) (phTree 0 false) (phTree 10 true) witDice [] true).edits = [.move 2 12, .move 3 13] ∧
+    (diffTrees (witP true) (phTree 10 true) (phTree 0 false) witDice [] true).edits = [.move 12 2, .move 13 3] ∧
+    (diffTrees (witP true) (phTree 0 true) (phTree 10 true) witDice [] true).edits = [] := by
+  decide +kernel
+
 /-- constants re-extracted from sqlglot/diff.py on this run satisfy what the copy theorems need:
     the high leaf-similarity threshold and the default `f` are at most 1, and Identifier is the only ignored type -/
 theorem generated_constants_ok :
